@@ -119,7 +119,7 @@ pub fn run(ctx: &Ctx) -> Report {
     rep.assume("trees are those reachable by parsing; doctype ids are outside the serializer API and excluded");
     report_known(ctx, &mut rep, &|v| replay(&ctx.strict_clone(), v));
     run_regressions(ctx, &mut rep, &|v| replay(&ctx.strict_clone(), v));
-    let out = run_random(ctx.seed, ctx.tier.pick(400_000, 20_000_000), 1500, decode, check);
+    let out = run_random(ctx.seed, ctx.tier.pick(3_000_000, 30_000_000), 1500, decode, check);
     rep.absorb(out);
     for l in ["prefixed attribute", "default namespace changes between parent and child", "text/attribute needs escaping"] {
         rep.need(l, 500);
